@@ -9,11 +9,14 @@ import (
 	"context"
 	"fmt"
 	"io"
+	"net"
 	"net/http"
 	"net/http/httptest"
+	"net/url"
 	"os"
 	"sort"
 	"strings"
+	"time"
 
 	"github.com/vicanso/elton"
 	"github.com/vicanso/hes"
@@ -410,3 +413,52 @@ func Uncacheable(c *OriginCall, payload string) OriginResp {
 }
 
 var _ = store.ErrNotFound
+
+var adminAddr string
+
+// AdminPurge sends `DELETE /cache?key=..[&cache=..]` to pike's real admin server (started once per
+// process on a loopback port), i.e. through the real route table and middleware of server/admin.go.
+// cacheName "\x00absent" omits the cache parameter.
+func AdminPurge(shard int, cacheName, key string) error {
+	if adminAddr == "" {
+		for k := 0; k < 8 && adminAddr == ""; k++ {
+			addr := fmt.Sprintf("127.0.0.1:%d", 22000+shard*8+k)
+			errc := make(chan error, 1)
+			go func() { errc <- server.StartAdminServer(server.AdminServerConfig{Addr: addr}) }()
+			for t0 := time.Now(); time.Since(t0) < 2*time.Second; time.Sleep(10 * time.Millisecond) {
+				select {
+				case <-errc:
+					t0 = time.Time{}
+				default:
+				}
+				if t0.IsZero() {
+					break
+				}
+				if conn, err := net.DialTimeout("tcp", addr, 100*time.Millisecond); err == nil {
+					conn.Close()
+					adminAddr = addr
+					break
+				}
+			}
+		}
+		if adminAddr == "" {
+			return fmt.Errorf("admin server could not be started")
+		}
+	}
+	q := url.Values{}
+	q.Set("key", key)
+	if cacheName != "\x00absent" {
+		q.Set("cache", cacheName)
+	}
+	req, _ := http.NewRequest("DELETE", "http://"+adminAddr+"/cache?"+q.Encode(), nil)
+	resp, err := http.DefaultClient.Do(req)
+	if err != nil {
+		return err
+	}
+	defer resp.Body.Close()
+	io.Copy(io.Discard, resp.Body)
+	if resp.StatusCode != 204 {
+		return fmt.Errorf("admin purge answered %d", resp.StatusCode)
+	}
+	return nil
+}
